@@ -26,7 +26,7 @@ var fcDepth = map[string]map[string][2]int{ // property -> scenario -> depth (qu
 
 func runFC(prop string) {
 	run := core.NewRun(prop, "model_checking")
-	run.SetDeadline(core.Budget(150*time.Second, 25*time.Minute))
+	run.SetDeadline(core.Budget(200*time.Second, 25*time.Minute))
 	ti := 0
 	if run.Tier == "thorough" {
 		ti = 1
